@@ -88,6 +88,22 @@ Definition tail_after_wait (repaint : bool) (fa fo : nat -> R) (msga msgo : R) (
   else
     mkS rows id act (s_oth s) (0, rows - 1) junk.
 
+(* ^Wx: vi_wswap() flips w_cur (the window moves into the other half); since fix 9a0f0fa the `^W x` case calls vi_switch(w_cur) at
+   once, so term_rows() is the height of the NEW half when the tail of vi() runs; then mod = VC_ALL:
+       vi_wfix();                                       -- fixed = true: the new half's height; before 9a0f0fa: the old region's
+       vi_switch(1 - id); vi_wfix(); vi_drawagain(.., -1); vi_switch(id);  vi_drawagain(xcol, -1); *)
+Definition wswap_tail (fixed : bool) (fa fo : nat -> R) (msga msgo : R) (s : sstate) : sstate :=
+  let rows := s_rows s in
+  let id := 1 - s_cur s in
+  let '(ba, ha) := geom rows 2 id in
+  let '(bo, ho) := geom rows 2 (1 - id) in
+  let hfix := if fixed then ha else snd (s_region s) in
+  let act := view_fix hfix (s_act s) in
+  let oth := view_fix ho (s_oth s) in
+  let scr := drawwin_msg fo msgo bo (Z.to_nat (v_top oth)) ho (s_scr s) in
+  let scr := drawwin_msg fa msga ba (Z.to_nat (v_top act)) ha scr in
+  mkS rows id act oth (ba, ha) scr.
+
 (* each window shows a true window of its buffer, the cursor line of each is inside it, and the scroll region of the
    terminal (= the height every later vi_wfix / vi_drawupdate / term_room works with) is the active window's *)
 Definition in_view (h : nat) (v : view) : Prop :=
